@@ -1,3 +1,4 @@
+-- NOTE (round 7): the exact ratio (3k-1)/(4k-2) is proved for EVERY k in PrtpyProofs/MaxMin5.lean (`MaxMin5.greedy_maxmin`); what this file calls open is closed there.
 /-
   PrtpyProofs.MaxMin — property C08:
   (1) the max-min guarantee of LPT (`greedy`), (2) the binary search of `multifit`.
